@@ -87,6 +87,9 @@ int rtr_bgpsec_validate_as_path(const struct rtr_bgpsec *data, struct spki_table
 	 */
 	struct rtr_signature_seg *tmp_sig = NULL;
 
+	/* The Secure_Path Segment that belongs to tmp_sig. */
+	struct rtr_secure_path_seg *tmp_sec = NULL;
+
 	/* Temp variable that holds the signature length of the of the
 	 * next signature segment.
 	 */
@@ -111,7 +114,7 @@ int rtr_bgpsec_validate_as_path(const struct rtr_bgpsec *data, struct spki_table
 		return RTR_BGPSEC_UNSUPPORTED_AFI;
 
 	/* Make sure that all router keys are available. */
-	retval = check_router_keys(data->sigs, table);
+	retval = check_router_keys(data->sigs, data->path, table);
 
 	if (retval != RTR_BGPSEC_SUCCESS)
 		goto err;
@@ -169,6 +172,7 @@ int rtr_bgpsec_validate_as_path(const struct rtr_bgpsec *data, struct spki_table
 	 */
 	retval = RTR_BGPSEC_VALID;
 	tmp_sig = data->sigs;
+	tmp_sec = data->path;
 
 	for (unsigned int offset = 0, next_offset = 0; offset <= get_stream_size(s) && retval == RTR_BGPSEC_VALID;
 	     offset += next_offset) {
@@ -220,6 +224,12 @@ int rtr_bgpsec_validate_as_path(const struct rtr_bgpsec *data, struct spki_table
 				retval = RTR_BGPSEC_UNSUPPORTED_ALGORITHM_SUITE;
 				goto err;
 			}
+			/* A router key only counts if it is registered for the
+			 * AS of the Secure_Path Segment this signature belongs to.
+			 */
+			if (retval == RTR_BGPSEC_VALID && tmp_key[j].asn != tmp_sec->asn)
+				retval = RTR_BGPSEC_NOT_VALID;
+
 			/* As soon as one of the router keys produces a valid
 			 * result, exit the loop.
 			 */
@@ -231,6 +241,7 @@ int rtr_bgpsec_validate_as_path(const struct rtr_bgpsec *data, struct spki_table
 		hash_result = NULL;
 		tmp_key = NULL;
 		tmp_sig = tmp_sig->next;
+		tmp_sec = tmp_sec->next;
 	}
 
 err:
